@@ -8,4 +8,5 @@ import (
 	_ "verifharness/props/c12"
 	_ "verifharness/props/c13"
 	_ "verifharness/props/c14"
+	_ "verifharness/props/c19"
 )
